@@ -1,5 +1,6 @@
 """C07 - navigation is history-independent.  Rules FUNNEL, DEP, BOUNDS, BIND."""
 import ast
+from .. import roles
 import re
 from ..core import rel, AnalysisError, norm, dotted, call_name, walk_no_nested, is_self_attr
 from .. import flow
@@ -88,7 +89,7 @@ def rule_funnel(run):
         for c in ([n] if isinstance(n, ast.Call) else []) + [x for x in walk_no_nested(n) if isinstance(x, ast.Call)]:
             if isinstance(c.func, ast.Attribute) and c.func.attr == 'seek' and is_self_attr(c.func.value, '_file') \
                and len(c.args) == 1:
-                a = c.args[0]
+                a = roles.inline_locals(c.args[0], si.node.body)       # (the position may be looked up into a local first)
                 if isinstance(a, ast.Subscript) and is_self_attr(a.value, '_fullpos') and \
                    isinstance(a.slice, ast.Name) and a.slice.id == param:
                     return True
@@ -138,7 +139,9 @@ def rule_funnel(run):
     # negative normalisation
     normd = False
     for n in walk_no_nested(si.node):
-        if isinstance(n, ast.If) and isinstance(n.test, ast.Compare) and dotted(n.test.left) == 'self._index' \
+        # the value tested is the index just stored, or the parameter it was stored from
+        if isinstance(n, ast.If) and isinstance(n.test, ast.Compare) and len(n.test.ops) == 1 and \
+           (dotted(n.test.left) == 'self._index' or (isinstance(n.test.left, ast.Name) and n.test.left.id == param)) \
            and isinstance(n.test.ops[0], ast.Lt) and isinstance(n.test.comparators[0], ast.Constant) \
            and n.test.comparators[0].value == 0:
             for s in n.body:
